@@ -275,26 +275,37 @@ fn tampered_batch(drv: &mut Driver, rep: &mut Report, stream: &str, c: &Case, ho
 /// single-bit flips at the listed positions: real sender on each, model verdicts in one batched `ss flips` request
 fn flips(drv: &mut Driver, rep: &mut Report, stream: &str, c: &Case, r1: &[u8], items: &str, positions: &[usize]) {
     let req = format!("ss flips {} {} {} {} {}", hexw(&c.sid), rc_hex(&c.sd), dec_hex(&c.sd), hex::encode(r1), items);
-    let model = drv.ask_with(&req, &mut |q| oracle::answer(q));
+    // the real sender runs on worker threads while the model driver answers the batched request
+    let workers = std::thread::available_parallelism().map(|n| n.get()).unwrap_or(1).saturating_sub(1).clamp(1, 4);
+    let chunk = (positions.len() + workers - 1) / workers.max(1);
+    let (model, impl_v): (String, Vec<char>) = std::thread::scope(|sc| {
+        let handles: Vec<_> = positions.chunks(chunk.max(1)).map(|ps| {
+            let (sid, r, r1) = (&c.sid, &c.sd.r, r1);
+            sc.spawn(move || ps.iter().map(|&pos| {
+                let mut m = r1.to_vec(); flip(&mut m, pos);
+                match run_send(sid, r, &m) { Some(Ok(_)) => '1', Some(Err(())) => '0', None => 'p' }
+            }).collect::<Vec<char>>())
+        }).collect();
+        let model = drv.ask_with(&req, &mut |q| oracle::answer(q));
+        let mut v = vec![];
+        for hnd in handles { v.extend(hnd.join().expect("worker")); }
+        (model, v)
+    });
     let mv: Vec<char> = model.chars().collect();
     if mv.len() != positions.len() {
         rep.diverge(Failure { stream: stream.into(), index: 0, request: vec![req.clone()], impl_out: format!("{} positions", positions.len()), model_out: clip(&model), key: "ss:flips-model".into(), what: "model answered a different number of verdicts".into() });
         return;
     }
     for (n, &pos) in positions.iter().enumerate() {
-        let mut m = r1.to_vec(); flip(&mut m, pos);
         let field = if pos < U_BYTES * 8 { "u" } else if pos < (U_BYTES + S_BYTES) * 8 { "x" } else { "t" };
-        let one = format!("ss flips {} {} {} {} {:x}", hexw(&c.sid), rc_hex(&c.sd), dec_hex(&c.sd), hex::encode(r1), pos);
         let idx = rep.case(stream, Some(&format!("{}#{pos}", &c.tag)));
         rep.hist(&format!("mut:bitflip-{field}"));
-        let got = run_send(&c.sid, &c.sd.r, &m);
-        let banned = matches!(got, Some(Err(())));
-        if !banned {
-            rep.pred_fail(Failure { stream: stream.into(), index: idx, request: vec![one.clone()], impl_out: clip(&send_str(&got)), model_out: "ban".into(), key: format!("ss:tamper-accepted:bitflip-{field}"), what: format!("flipping bit {pos} (field {field}) of the first-round message does not make the sender abort") });
+        let one = || format!("ss flips {} {} {} {} {:x}", hexw(&c.sid), rc_hex(&c.sd), dec_hex(&c.sd), hex::encode(r1), pos);
+        if impl_v[n] != '0' {
+            rep.pred_fail(Failure { stream: stream.into(), index: idx, request: vec![one()], impl_out: (if impl_v[n] == '1' { "accepted" } else { "panic" }).into(), model_out: "ban".into(), key: format!("ss:tamper-accepted:bitflip-{field}"), what: format!("flipping bit {pos} (field {field}) of the first-round message does not make the sender abort") });
         }
-        let impl_v = match got { Some(Ok(_)) => '1', Some(Err(())) => '0', None => 'p' };
-        if impl_v != mv[n] {
-            rep.diverge(Failure { stream: stream.into(), index: idx, request: vec![one], impl_out: impl_v.to_string(), model_out: mv[n].to_string(), key: "ss:flips-model".into(), what: format!("model and implementation verdicts differ for the flip of bit {pos}") });
+        if impl_v[n] != mv[n] {
+            rep.diverge(Failure { stream: stream.into(), index: idx, request: vec![one()], impl_out: impl_v[n].to_string(), model_out: mv[n].to_string(), key: "ss:flips-model".into(), what: format!("model and implementation verdicts differ for the flip of bit {pos}") });
         }
     }
 }
@@ -379,6 +390,26 @@ fn tamper_stream(o: &Opts, drv: &mut Driver, rep: &mut Report) {
             let items: Vec<String> = ps.iter().map(|p| format!("{p:x}")).collect();
             flips(drv, rep, "bitflip", &c, &r1, &items.join(","), &ps);
             rep.exhaustive.push("every single-bit flip of the field x of one honest message".into());
+        }
+        // ---- the model's own tamper operators (used by the theorems) do what the byte-level alterations do
+        for n in 0..(if thorough { 48 } else { 12 }) {
+            let (req, want) = match n % 3 {
+                0 => { let pos = if n < 6 { [0, 7, U_BYTES * 8 - 1, U_BYTES * 8, (U_BYTES + S_BYTES) * 8, R1_BYTES * 8 - 1][n] } else { rng.gen_range(0..R1_BYTES * 8) };
+                       let mut m = r1.clone(); flip(&mut m, pos); (format!("ss tamper flip {} {:x}", hex::encode(&r1), pos), m) }
+                1 => { let (i, j) = (rng.gen_range(0..NB), rng.gen_range(0..NB)); let mut m = r1.clone();
+                       for b in 0..L_PRIME_BYTES { m.swap(i * L_PRIME_BYTES + b, j * L_PRIME_BYTES + b); }
+                       if i == j { m = r1.clone(); }
+                       (format!("ss tamper swapu {} {:x} {:x}", hex::encode(&r1), i, j), m) }
+                _ => { let (i, j) = (rng.gen_range(0..LAMBDA_C), rng.gen_range(0..LAMBDA_C)); let mut m = r1.clone(); let to = U_BYTES + S_BYTES;
+                       for b in 0..S_BYTES { m.swap(to + i * S_BYTES + b, to + j * S_BYTES + b); }
+                       if i == j { m = r1.clone(); }
+                       (format!("ss tamper swapt {} {:x} {:x}", hex::encode(&r1), i, j), m) }
+            };
+            let idx = rep.case("tamper-operators", Some(&req));
+            let model = drv.ask(&req);
+            if model != hex::encode(&want) {
+                rep.diverge(Failure { stream: "tamper-operators".into(), index: idx, request: vec![req], impl_out: clip(&hex::encode(&want)), model_out: clip(&model), key: "ss:tamper-op-model".into(), what: "the model's tamper operator differs from the byte-level alteration".into() });
+            }
         }
         // ---- multi-bit, overwrites, swaps
         let reps = if thorough { 6 } else { 1 };
@@ -511,7 +542,7 @@ fn adversaries(drv: &mut Driver, rep: &mut Report, c: &Case, hon_r1: &[u8], hon:
 fn adversary_stream(o: &Opts, drv: &mut Driver, rep: &mut Report) {
     let mut rng = case_rng(o.seed, "c04-adv");
     let thorough = o.tier == "thorough";
-    let bases = if thorough { 3 } else { 1 } * o.scale as usize;
+    let bases = if thorough { 2 } else { 1 } * o.scale as usize;
     for k in 0..bases {
         // seeds with a mixture of punctured indices, zeros included (so that "guess 0" can be right)
         let mut c = fresh_case(&mut rng, k, Delta::Random, "adv-base");
@@ -555,7 +586,7 @@ fn adversary_stream(o: &Opts, drv: &mut Driver, rep: &mut Report) {
 pub fn run_c04(o: &Opts, drv: &mut Driver, rep: &mut Report) {
     // honest messages are always accepted (also checked by every base case below)
     let mut rng = case_rng(o.seed, "c04-honest");
-    let n = (if o.tier == "thorough" { 40 } else { 4 }) * o.scale as usize;
+    let n = (if o.tier == "thorough" { 16 } else { 4 }) * o.scale as usize;
     for k in 0..n {
         let d = [Delta::Random, Delta::AsGenerated, Delta::All(15), Delta::Ramp][k % 4];
         let mut c = fresh_case(&mut rng, k, d, "honest");
